@@ -368,6 +368,27 @@ func zzC10Route() {
 		c.streams[""].w = wS
 		c.streams[""].done = make(chan struct{})
 	}
+	// the client may have given up on one of the calls: its cancellation notice arrives as a POST of its own. That is
+	// between the client and the handler — the routing of whatever the handler still sends (the SDK always answers a
+	// cancelled call) is unchanged: same stream, same exchange, nothing diverted, nothing released early
+	if !stateless && vBool("aCancellationNoticeArrivesFirst") {
+		which := idA
+		if vBool("theNoticeNamesB") {
+			which = idB
+		}
+		stA, okA := c.requestStreams[idA]
+		stB, okB := c.requestStreams[idB]
+		nStreams := len(c.streams)
+		wN := zzNewExch("notice")
+		zzPOST(c, wN, protocolVersion20250618, &jsonrpc.Request{Method: notificationCancelled, Params: vJSON(&CancelledParams{RequestID: which.Raw()})})
+		vAssert(wN.code == http.StatusAccepted, "C12.notification-post-accepted")
+		gA, gokA := c.requestStreams[idA]
+		gB, gokB := c.requestStreams[idB]
+		vAssert(gA == stA && gokA == okA && gB == stB && gokB == okB && len(c.streams) == nStreams, "C10.cancellation-notice-leaves-routing-alone")
+		vAssert(len(sA.requests) == 1 && (sB == nil || len(sB.requests) == 1), "C10.cancellation-notice-leaves-routing-alone")
+		vAssert(aGone || !vIsClosed(sA.done), "C10.cancellation-notice-does-not-release-the-exchange")
+		vReach("notice-first")
+	}
 	// the message
 	kind := vChoice("kind", 3) // 0 response, 1 notification, 2 server->client request
 	rel := vChoice("related", 3) // 0: A, 1: B, 2: none
